@@ -169,7 +169,7 @@ func checkRejectLocal(c rejectCase) harness.Outcome {
 
 var rejectFacet = harness.Register(&harness.Facet[rejectCase]{
 	Name: "rejection",
-	Rule: "rapid: minijs.GenProgram (valid, depth<=5) + one injector of 16 kinds (break / continue outside a loop or switch, continue to a label of a non-iteration statement, return outside a function, unknown label incl. across a function boundary, duplicate nested label, 29 invalid assignment / update / for-in targets, try without catch or finally and malformed catch, malformed or unterminated regexp / string / comment, reserved word as identifier, 100 underivable token sequences, a bracket deleted or a stray bracket inserted, an operator inserted behind an operator, constructs otto is known to accept) placed as a statement at a random statement-list position whose context (function depth, loop, switch, labels, first-in-list) makes it an error by construction, behind `hit(1); g1=1; var g2=hit(2); this.g3=[hit]; function g4(){} hit(3);`; canonical layout or random trivia without line terminators inside the injection; oracle: ParseFile error (positions inside the text), then on a fresh runtime Run(text), eval(text), new Function(text) and Compile(text) each return an error, the host function was never called and the sorted own property names, values (by identity), accessors and attributes of the global object are unchanged; every evaluated case is non-trivial (the error is preceded by >= 6 executable statements); distinct by JSON of the case",
+	Rule: "rapid: minijs.GenProgram (valid, depth<=5) + one injector of 17 kinds (break / continue outside a loop or switch, continue to a label of a non-iteration statement, return outside a function, unknown label incl. across a function boundary, duplicate nested label, 29 invalid assignment / update / for-in targets, try without catch or finally and malformed catch, malformed or unterminated regexp / string / comment, one of 50 invalid pattern pieces (non-ES5 group forms, quantifier errors, reversed class ranges, unbalanced parentheses) wrapped 0-3 levels deep in capturing / non-capturing / alternation / quantified groups and rejected by an own ES5 15.10.1 recogniser, reserved word as identifier, 100 underivable token sequences, a bracket deleted or a stray bracket inserted, an operator inserted behind an operator, constructs otto is known to accept) placed as a statement at a random statement-list position whose context (function depth, loop, switch, labels, first-in-list) makes it an error by construction, behind `hit(1); g1=1; var g2=hit(2); this.g3=[hit]; function g4(){} hit(3);`; canonical layout or random trivia without line terminators inside the injection; oracle: ParseFile error (positions inside the text), then on a fresh runtime Run(text), eval(text), new Function(text) and Compile(text) each return an error, the host function was never called and the sorted own property names, values (by identity), accessors and attributes of the global object are unchanged; every evaluated case is non-trivial (the error is preceded by >= 6 executable statements); distinct by JSON of the case",
 	Quick: 2500, Thorough: 24000,
 	Gen: func(t *rapid.T) rejectCase {
 		c := rejectCase{Prog: genPrograms(t, 5)}
